@@ -167,6 +167,15 @@ func cmdCheck(args []string) {
 		}
 	}
 	DischargeAll(all, work, timeout, seed, 12)
+	twins := VacuityTwins(all, work, seed, 80)
+	nTwins := 0
+	for _, tw := range twins {
+		nTwins++
+		if tw.Status == "unsat" {
+			fmt.Printf("CHECK-ERROR %s: vacuous proof: the obligation stays provable with an unconstrained conjunct added (contradictory assumptions)\n", tw.TwinOf.Name)
+			broken++
+		}
+	}
 
 	findings := loadFindings(filepath.Join(root, "known_findings.txt"))
 	known := map[string]finding{}
@@ -290,6 +299,7 @@ func cmdCheck(args []string) {
 			"known_findings":       len(seenKnown),
 			"obligations_by_kind":  byKind,
 			"vacuity_probes":       nVac,
+			"vacuity_twins":        nTwins,
 			"functions_under_contract": funcs,
 			"checker_cmd":          fmt.Sprintf("bin/govc check -property %s -tier %s", *prop, *tier),
 			"trusted_base":         trusted,
